@@ -490,7 +490,14 @@ def check_view(ctx, case):
   G.seed_library(spec)
   view = G.view_class("gp_ei")(params)
   info = view.multimetric_info
-  pofs = view._form_probabilistic_failures_for_pareto_frontier_optimization()
+  form = getattr(view, "_form_probabilistic_failures_for_pareto_frontier_optimization", None)
+  if form is None:
+    # a private method: after a harmless refactoring it may be gone; the wiring is then only reachable through C06
+    ctx.count("view: private builder not found - wiring check skipped")
+    if "view wiring skipped: GPView._form_probabilistic_failures_for_pareto_frontier_optimization not found" not in ctx.notes:
+      ctx.notes.append("view wiring skipped: GPView._form_probabilistic_failures_for_pareto_frontier_optimization not found")
+    return False
+  pofs = form()
   if info.method not in (EPSILON_CONSTRAINT, PROBABILISTIC_FAILURES):
     ctx.count("view: other phase")
     if pofs:
